@@ -73,7 +73,14 @@ func judge(w witness) kit.Result {
 			clipped++
 		}
 		if off != p.Off || n != end-p.Off {
-			return kit.Bad("wrong-range", "expected [%d,+%d]: %s", p.Off, end-p.Off, ctx)
+			class := "wrong-range:offset"
+			switch {
+			case off == p.Off && n < end-p.Off:
+				class = "wrong-range:shortened" // although the piece does not reach into trimmed space that far
+			case off == p.Off:
+				class = "wrong-range:too-long"
+			}
+			return kit.Bad(class, "expected [%d,+%d]: %s", p.Off, end-p.Off, ctx)
 		}
 	}
 	trim := "none"
@@ -105,7 +112,7 @@ func alphabet() []string {
 	for _, s := range twoStrings {
 		ops = append(ops, "G:"+s)
 	}
-	return append(ops, "O", "A", "B")
+	return append(ops, "O", "A", "B", "S")
 }
 
 // enumerate calls emit for every valid operation sequence of exactly the given length.
@@ -160,7 +167,8 @@ func main() {
 		}
 		c.Rule("Every valid sequence of 1..%d (API styling: 1..%d) builder operations over the %d-operation alphabet "+
 			"{Plain, Format with one kind} x strings %q, raw WriteString x %q, Format with two kinds x %q, Token open, "+
-			"Token.Apply of the innermost / outermost open token (nested, adjacent and overlapping formatting), "+
+			"Token.Apply of the innermost / outermost open token (nested, adjacent and overlapping formatting), Builder.ShrinkPreCode "+
+			"(called by the HTML/Markdown formatters after parsing; no Pre entity is ever present so it may not change any range), "+
 			"run against the real entity.Builder directly and through styling.Perform, then Builder.Complete. "+
 			"The reference (unicode/utf16 only) computes the untrimmed text and each piece's UTF-16 range; every piece "+
 			"has its own entity type so each returned entity identifies its piece. Oracle = the statement: returned text is "+
